@@ -113,6 +113,9 @@ pub fn rich_dump(r: &mut Rng, prop: &str, seed: u64, profile: &str, benign_fault
         lib_gaps: r.chance(1, 3),
     };
     let mut b = build_world(r, &cfg);
+    if r.chance(1, 12) && crate::gen::spoil_first_lib_name(&mut b, &cfg) {
+        tags.push("linkmap-name-not-utf8".into());
+    }
     let mut opts = Opts {
         blamed: tid_of(r.below(nthreads as u64) as usize),
         ..Default::default()
@@ -127,7 +130,7 @@ pub fn rich_dump(r: &mut Rng, prop: &str, seed: u64, profile: &str, benign_fault
     for t in b.world.threads.iter_mut() {
         if r.chance(1, 8) {
             let len = r.below(16) as usize;
-            let s: String = (0..len).map(|_| *r.pick(&['a', 'Z', '0', ' ', '-', 'é', '漢', '(', ')'])).collect();
+            let s: String = (0..len).map(|_| *r.pick(&['a', 'Z', '0', ' ', '-', 'é', '漢', '(', ')', '\u{1F600}'])).collect();
             let mut bytes = s.into_bytes();
             bytes.truncate(15);
             // keep valid UTF-8 after truncation
@@ -323,6 +326,31 @@ pub fn rich_dump(r: &mut Rng, prop: &str, seed: u64, profile: &str, benign_fault
     (sc, tags)
 }
 
+/// The target is killed at one of the writer's reads of linker data (dynamic section of the
+/// program, r_debug, a link-map entry): streams written afterwards fail softly.
+pub fn kill_at_linker_read(r: &mut Rng, sc: &mut Scenario) {
+    let mut addrs: Vec<u64> = vec![HEAP_BASE, HEAP_BASE + 0x40];
+    // dynamic section of the program: the PT_DYNAMIC address is what the walk and the re-read use
+    if let Some(g) = sc.world.regions.iter().find(|g| g.start == EXE_BASE) {
+        if let Content::Bytes(bytes) = &g.content {
+            let b = &bytes.0;
+            if b.len() > 64 {
+                let phoff = u64::from_le_bytes(b[32..40].try_into().unwrap()) as usize;
+                let phnum = u16::from_le_bytes(b[56..58].try_into().unwrap()) as usize;
+                for i in 0..phnum {
+                    let o = phoff + i * 56;
+                    if o + 56 <= b.len() && u32::from_le_bytes(b[o..o + 4].try_into().unwrap()) == 2 {
+                        addrs.push(EXE_BASE + u64::from_le_bytes(b[o + 16..o + 24].try_into().unwrap()));
+                    }
+                }
+            }
+        }
+    }
+    let a = *r.pick(&addrs);
+    sc.events.push(Event { trig: Trigger { kind: CallKind::Vmreadv, nth: r.below(4) as u32, path: Some(format!("@{:x}+", a)) }, what: EventKind::KillProcess });
+    sc.tags.push("killed-at-linker-read".into());
+}
+
 pub fn dest_plan(r: &mut Rng, with_faults: bool) -> DestPlan {
     let start = *r.pick(&[0u64, 0, 1, 7, 4095, 4096, 65536]);
     let pre_len = match r.below(4) {
@@ -332,6 +360,9 @@ pub fn dest_plan(r: &mut Rng, with_faults: bool) -> DestPlan {
         _ => start + 20_000 + r.below(200_000),
     };
     let start = start.min(pre_len.max(start));
+    // a destination handed over at an offset near or beyond 4 GiB (recorded sparsely)
+    let origin = if r.chance(1, 8) { *r.pick(&[0xFFFF_F000u64, 0x1_0000_0000, 0x1_2345_6000, 0x7_0000_0000]) } else { 0 };
+    let start = start + origin;
     let mut fx = Vec::new();
     if with_faults {
         let n = if r.chance(1, 4) { 2 } else { 1 };
@@ -351,7 +382,7 @@ pub fn dest_plan(r: &mut Rng, with_faults: bool) -> DestPlan {
         }
         fx.sort_by_key(|(o, _)| *o);
     }
-    DestPlan { start, pre_len, fx }
+    DestPlan { start, pre_len, origin, fx }
 }
 
 fn dir_plan(r: &mut Rng) -> DirPlan {
@@ -762,6 +793,16 @@ fn gen_c04(r: &mut Rng, seed: u64) -> Scenario {
     if r.chance(1, 10) && n > 1 {
         events.push(Event { trig: Trigger { kind: CallKind::PtraceAttach, nth: r.below(n as u64) as u32, path: None }, what: EventKind::Spawn { tid: PID + 900 } });
         tags.push("spawn-during-dump".into());
+    }
+    if r.chance(1, 10) {
+        // the target is killed outright (SIGKILL) once its threads are suspended
+        let trig = match r.below(3) {
+            0 => Trigger { kind: CallKind::DestWrite, nth: r.below(2) as u32, path: None },
+            1 => Trigger { kind: CallKind::PtraceGetregset, nth: r.below(n as u64) as u32, path: None },
+            _ => Trigger { kind: CallKind::Open, nth: r.below(2 * n as u64) as u32, path: Some("/status".into()) },
+        };
+        events.push(Event { trig, what: EventKind::KillProcess });
+        tags.push("killed-while-suspended".into());
     }
     sc.events = events;
     sc.sched.steps_per_call = r.range(1, 7) as u32;
@@ -1224,7 +1265,7 @@ fn gen_c11(r: &mut Rng, seed: u64, idx: u64) -> Scenario {
     let mut used: Vec<u64> = Vec::new();
     let mut file_copy: Vec<(String, &str, &str, i32)> = Vec::new();
     for _ in 0..nkinds {
-        let kind = r.below(16);
+        let kind = r.below(17);
         if used.contains(&kind) {
             continue;
         }
@@ -1361,6 +1402,11 @@ fn gen_c11(r: &mut Rng, seed: u64, idx: u64) -> Scenario {
                 b.world.fd_dir_fails = true;
                 push_tags(&mut tags, &["expect:*/WriteHandleDataStreamFailed", "affects:handles", "fd-dir"]);
             }
+            16 => {
+                if crate::gen::spoil_first_lib_name(&mut b, &cfg) {
+                    push_tags(&mut tags, &["expect:*/WriteDSODebugStreamFailed", "affects:dso", "linkmap-name-not-utf8"]);
+                }
+            }
             _ => {}
         }
     }
@@ -1418,6 +1464,9 @@ fn gen_c18(r: &mut Rng, seed: u64) -> Scenario {
     if cfg.names_at_end {
         tags.push("names-at-mapping-end".into());
     }
+    if r.chance(1, 10) && crate::gen::spoil_first_lib_name(&mut b, &cfg) {
+        tags.push("linkmap-name-not-utf8".into());
+    }
     let mut opts = Opts { blamed: tid_of(r.below(n as u64) as usize), ..Default::default() };
     if n > 1 && opts.blamed != PID && r.chance(1, 6) {
         // the initial thread has exited (pthread_exit in main); its /proc files are those of a zombie
@@ -1453,6 +1502,7 @@ fn gen_c18(r: &mut Rng, seed: u64) -> Scenario {
                 p.extend_from_slice(&[0xff, 0xfe, b'x']);
                 (p, 0o100644)
             }
+            _ if r.coin() => (format!("/srv/\u{1F4C4}-{}-\u{1F600}.txt", i).into_bytes(), 0o100644),
             _ => (format!("/srv/ünï/{}", i).into_bytes(), 0o040755),
         };
         if r.chance(1, 5) && target.starts_with(b"/") {
@@ -1975,6 +2025,14 @@ fn gen_c03(r: &mut Rng, seed: u64) -> Scenario {
         b.world.threads[0].program = Program::Parked;
         tags.push("zombie-leader".into());
     }
+    if r.chance(1, 8) && n > 1 {
+        // a thread in a long uninterruptible wait: it takes no signal (and so does not stop) before it wakes
+        let ti = r.range(1, n as u64 - 1) as usize;
+        if !b.world.threads[ti].zombie {
+            b.world.threads[ti].blocked_until_ns = *r.pick(&[20_000_000u64, 400_000_000, 1_500_000_000, 4_000_000_000]);
+            tags.push("thread-in-d-state".into());
+        }
+    }
     let mut faults = Vec::new();
     match r.below(8) {
         0 | 5 => {
@@ -2464,7 +2522,11 @@ pub fn generate(prop: &str, verif_seed: u64, idx: u64) -> Scenario {
     match prop {
         "C01" => {
             let benign = idx % 2 == 1;
-            rich_dump(&mut r, prop, seed, if benign { "c01-benign-faults" } else { "c01-clean" }, benign).0
+            let mut sc = rich_dump(&mut r, prop, seed, if benign { "c01-benign-faults" } else { "c01-clean" }, benign).0;
+            if benign && r.chance(1, 10) {
+                kill_at_linker_read(&mut r, &mut sc);
+            }
+            sc
         }
         "C02" => gen_c02(&mut r, seed),
         "C03" => gen_c03(&mut r, seed),
@@ -2516,6 +2578,9 @@ pub fn generate(prop: &str, verif_seed: u64, idx: u64) -> Scenario {
             if let Workload::Dump(p) = &mut sc.workload {
                 p.dests = vec![dest_plan(&mut r, false)];
             }
+            if r.chance(1, 10) {
+                kill_at_linker_read(&mut r, &mut sc);
+            }
             sc
         }
         "C19" => {
@@ -2564,6 +2629,19 @@ pub fn generate(prop: &str, verif_seed: u64, idx: u64) -> Scenario {
                         p.between[k].push(EventKind::UnmapNamed { name: victim });
                     }
                 }
+                // an application memory region that is not mapped (yet): requests fail while it is
+                // absent; the target may map it between two requests
+                let mut map_later: Option<(usize, EventKind)> = None;
+                if r.chance(1, 5) {
+                    let hole = 0x5a00_0000_0000u64 + r.below(16) * 0x10_0000;
+                    let len = *r.pick(&[8u64, 64, 4096]);
+                    p.opts.app_memory.push((hole + r.below(0x1000 - 64), len.min(64)));
+                    sc.tags.push("appmem-unmapped".into());
+                    if r.coin() {
+                        map_later = Some((r.below(n as u64 - 1) as usize, EventKind::MapAnon { start: hole, len: 0x2000, seed: r.next() }));
+                        sc.tags.push("appmem-mapped-later".into());
+                    }
+                }
                 let prefilled = p.between.len();
                 let _ = unmap_at;
                 for bi in 1..n {
@@ -2591,6 +2669,12 @@ pub fn generate(prop: &str, verif_seed: u64, idx: u64) -> Scenario {
                         }
                     }
                     p.between.push(evs);
+                }
+                if let Some((k, ev)) = map_later {
+                    while p.between.len() <= k {
+                        p.between.push(Vec::new());
+                    }
+                    p.between[k].push(ev);
                 }
                 if evolve {
                     sc.tags.push("evolving".into());
